@@ -307,6 +307,21 @@ def run(ctx):
                               "that does not name the field reaches the store is not decided" % (kv, og), ins.node)
                 continue
         if not named:
+            # the key variable is handed out by a package generator (for key, value in edits(args)): which fields it hands out -
+            # the named ones only, or all - is decided inside the generator, which this rule does not read
+            lp = ctx.prog.parent.get(ins.node)
+            gen = None
+            while lp is not None and lp is not edit.node:
+                if isinstance(lp, ast.For) and any(isinstance(t_, ast.Name) and t_.id == kv for t_ in ast.walk(lp.target)) and isinstance(lp.iter, ast.Call):
+                    tg_ = [t_ for t_ in C.targets_of(ctx, edit, lp.iter) if t_.is_generator]
+                    if tg_:
+                        gen = tg_[0]
+                    break
+                lp = ctx.prog.parent.get(lp)
+            if gen is not None:
+                ctx.undecided("C07.2", edit, "store under the key variable %r, handed out by the generator %s: whether it hands out only the fields the request names is decided there and was not followed" % (kv, gen.qualname), ins.node)
+                continue
+        if not named:
             ctx.violated("C07.2", edit, "store under the key variable %r is not control-dependent on the request naming that field (`%s in args`): an edit that does not name it still changes it" % (kv, kv), ins.node)
             continue
         # the value must come from the request entry of the same key variable
